@@ -13,7 +13,9 @@ mutual
 theorem cStmt_c : ∀ (st : Stmt) (lb : Nat), cgStmt lv st = true → (∀ n ∈ mlStmt st, n ∈ cx.defs) → ∀ (env : Src.Env), EnvOK cx env →
     PM cx (cStmt [] lb st) (fun k b => Src.tr fuel [] env (toSrcStmt st) k b) env
   | .op n ps, lb, hg, hu, env, he => simple_pm cx fuel _ lb (by simpa [cgStmt] using hg) env he
-  | .ret, lb, _, hu, env, he => simple_pm cx fuel _ lb rfl env he
+  | .ret, lb, _, hu, env, he => by
+    simp only [cStmt, toSrcStmt]
+    exact ret_pm cx fuel env he
   | .end_, lb, _, hu, env, he => simple_pm cx fuel _ lb rfl env he
   | .hold, lb, _, hu, env, he => simple_pm cx fuel _ lb rfl env he
   | .inl c cp n ps, lb, hg, hu, env, he => simple_pm cx fuel _ lb (by simpa [cgStmt] using hg) env he
@@ -139,10 +141,10 @@ theorem cElifsB_c : ∀ (es : Elifs) (lb : Nat), cgElifs lv es = true → (∀ n
       · have hn : a.neg = neg := ha.1
         simp only [elifsBack, backOf, patchNone_append, hbk, hn]
         cases neg <;> rfl
-theorem cStmts_falls : ∀ (ss : Stmts) (lb : Nat), 0 ≤ fuel → cgStmts lv ss = true → (∀ n ∈ mlStmts ss, n ∈ cx.defs) → endsFlowStmts ss = true →
+theorem cStmts_falls : ∀ (ss : Stmts) (lb : Nat), 0 ≤ fuel → ∀ (env0 : Src.Env), EnvOK cx env0 → cgStmts lv ss = true → (∀ n ∈ mlStmts ss, n ∈ cx.defs) → endsFlowStmts ss = true →
     ∀ (s : St) (ops : List LItem) (s' : St), cStmts [] lb ss s = .ok (ops, s') → falls ops = false
-  | .nil, lb, _, _, _, he => by simp [endsFlowStmts] at he
-  | .cons st .nil, lb, _, hg, hu, he => by
+  | .nil, lb, _, _, _, _, _, he => by simp [endsFlowStmts] at he
+  | .cons st .nil, lb, _, _, _, hg, hu, he => by
     intro s ops s' h
     simp only [endsFlowStmts] at he
     simp only [cStmts, bind_ok, pure_ok] at h
@@ -151,7 +153,7 @@ theorem cStmts_falls : ∀ (ss : Stmts) (lb : Nat), 0 ≤ fuel → cgStmts lv ss
     obtain ⟨rfl, rfl⟩ := h2
     obtain ⟨rfl, rfl⟩ := h3
     simpa using ends_items he h1
-  | .cons st (.cons st2 r), lb, hf0, hg, hu, he => by
+  | .cons st (.cons st2 r), lb, hf0, env0, he0, hg, hu, he => by
     intro s ops s' h
     simp only [endsFlowStmts] at he
     simp only [cgStmts, Bool.and_eq_true] at hg
@@ -160,10 +162,10 @@ theorem cStmts_falls : ∀ (ss : Stmts) (lb : Nat), 0 ≤ fuel → cgStmts lv ss
     obtain ⟨a, s1, h1, bb, s2, h2, h3⟩ := h
     simp only [Prod.mk.injEq] at h3
     obtain ⟨rfl, rfl⟩ := h3
-    have pA := cStmt_c st lb hg.1 (fun n hn => hu n (by simp [mlStmts, hn])) {} (envOK_empty cx) _ _ _ h1
+    have pA := cStmt_c st lb hg.1 (fun n hn => hu n (by simp [mlStmts, hn])) env0 he0 _ _ _ h1
     have hne : bb ≠ [] := cStmts_cons_ne lv st2 r _ hg.2.1 _ _ _ h2
     rw [falls_append a bb hne pA.last]
-    exact cStmts_falls (.cons st2 r) _ hf0 (by simp [cgStmts, hg.2.1, hg.2.2]) (fun n hn => hu n (by
+    exact cStmts_falls (.cons st2 r) _ hf0 env0 he0 (by simp [cgStmts, hg.2.1, hg.2.2]) (fun n hn => hu n (by
       simp only [mlStmts, List.mem_append] at hn ⊢; exact .inr hn)) he _ _ _ h2
 
 theorem cCases_c : ∀ (cs : Cases) (lb : Nat) (sw : String) (nf : Bool), cgCases lv sw nf cs = true → (∀ n ∈ mlCases cs, n ∈ cx.defs) →
@@ -204,23 +206,23 @@ theorem cCases_c : ∀ (cs : Cases) (lb : Nat) (sw : String) (nf : Bool), cgCase
       simp only [Stmts.isNil, Bool.false_eq_true, if_false] at hgr
       simp only [Stmts.isNil] at h1
       obtain ⟨e1, hw1, hs, d1, sL, eB, ops, sa, sb, n0, hH1, hC1, hD1, ws, hrun, hP, la, ca, hsb⟩ :=
-        defaultStep_c cx fuel endL (.cons b0 br)
+        defaultStep_c cx fuel env he endL (.cons b0 br)
           (fun env' he' => cStmts_c (.cons b0 br) lb hgb (fun n hn => hu n (by rw [mlCases]; exact List.mem_append_left _ hn)) env' he') hw h1
       obtain ⟨e2, nnD, Hr, Cr, hH2, hC2, n1, n2, hsem⟩ := cCases_c r _ sw _ hgr (fun n hn => hu n (by simp [mlStmt, mlStmts, mlElifs, mlCases, hn])) env he endL bps st1 s1 st' s' hb
         (by rw [hw1]; intro bp hbp; simp at hbp) (by rw [hw1, hcr]; simp [hasNone]) h2
       refine ⟨e1.trans e2, fun hd => nnD (by rw [hD1]; exact waitSem_nonone ws (noNone_jump _ _)), hs ++ Hr,
         ([LItem.label sL false] ++ ops ++ [LItem.label eB false]) ++ Cr, by rw [hH2, hH1, List.append_assoc],
         by rw [hC2, hC1, List.append_assoc], ws.nonone.append n1,
-        (((noNone_label _ _).append (hP {} (envOK_empty cx)).nonone).append (noNone_label _ _)).append n2, fun hw' FI _ => ?_⟩
+        (((noNone_label _ _).append (hP env he).nonone).append (noNone_label _ _)).append n2, fun hw' FI _ => ?_⟩
       have hR := (hsem hw' (falls ops = true) (fun hnf hf => by
-        have := cStmts_falls (.cons b0 br) lb (Nat.zero_le _) hgb (fun n hn => hu n (by rw [mlCases]; exact List.mem_append_left _ hn)) hnf _ _ _ hrun
+        have := cStmts_falls (.cons b0 br) lb (Nat.zero_le _) env he hgb (fun n hn => hu n (by rw [mlCases]; exact List.mem_append_left _ hn)) hnf _ _ _ hrun
         rw [this] at hf; cases hf)).stk e1.1 e1.2
       rw [hw1, hD1] at hR
       simp only [wSrc] at hR
       simp only [toSrcCases]
       exact sw_default cx fuel env he endL s.loops s.cases st.waiting hs st.defaultOps d1 sL eB ops sa sb (.cons b0 br) n0 hP la ca ws
         (hsb.trans e2.3) hR
-        (fun k nt b => trCases_nodefault fuel (brkEnv env k) he.1 sw r k nt b (countDefaults_zero r hcr)) FI
+        (fun k nt b => trCases_nodefault fuel (brkEnv env k) sw r k nt b (countDefaults_zero r hcr)) FI
   | .cons false n ps body r, lb, sw, nf, hg, hu => by
     intro env he endL bps st s st' s' hb hw hnd h
     obtain ⟨hnm, hlx, hgb, hgr⟩ := cgCases_cons hg
@@ -264,7 +266,7 @@ theorem cCases_c : ∀ (cs : Cases) (lb : Nat) (sw : String) (nf : Bool), cgCase
       simp only [Stmts.isNil, Bool.false_eq_true, if_false] at hgr
       simp only [Stmts.isNil] at h1
       obtain ⟨e1, hw1, hs, d1, ops, sa, sb, n0, hD1, hrun, hP, la, ca, hsb, hcase⟩ :=
-        caseStep_c cx fuel endL bp hbpos (.cons b0 br)
+        caseStep_c cx fuel env he endL bp hbpos (.cons b0 br)
           (fun env' he' => cStmts_c (.cons b0 br) lb hgb (fun n hn => hu n (by rw [mlCases]; exact List.mem_append_left _ hn)) env' he') hw h1
       have hcr : hasNone st.waiting = true → countDefaults r = 0 := by
         intro hh; rw [hh] at hnd'; simp only [if_true] at hnd'; omega
@@ -277,16 +279,16 @@ theorem cCases_c : ∀ (cs : Cases) (lb : Nat) (sw : String) (nf : Bool), cgCase
           (hs ++ [LItem.ljump ⟨n0, bp.name, bp.params⟩ (some sL)]) ++ Hr,
           ([LItem.label sL false] ++ ops ++ [LItem.label eB false]) ++ Cr, by rw [hH2, hH1, List.append_assoc],
           by rw [hC2, hC1, List.append_assoc], (ws.nonone.append (noNone_jump _ _)).append n1,
-          (((noNone_label _ _).append (hP {} (envOK_empty cx)).nonone).append (noNone_label _ _)).append n2, fun hw' FI _ => ?_⟩
+          (((noNone_label _ _).append (hP env he).nonone).append (noNone_label _ _)).append n2, fun hw' FI _ => ?_⟩
         have hR := (hsem hw' (falls ops = true) (fun hnf hf => by
-          have := cStmts_falls (.cons b0 br) lb (Nat.zero_le _) hgb (fun n hn => hu n (by rw [mlCases]; exact List.mem_append_left _ hn)) hnf _ _ _ hrun
+          have := cStmts_falls (.cons b0 br) lb (Nat.zero_le _) env he hgb (fun n hn => hu n (by rw [mlCases]; exact List.mem_append_left _ hn)) hnf _ _ _ hrun
           rw [this] at hf; cases hf)).stk e1.1 e1.2
         rw [hw1, hD1] at hR
         simp only [wSrc] at hR
         simp only [toSrcCases]
         have := sw_case cx fuel env he endL s.loops s.cases st.waiting hs st.defaultOps d1 sL eB ops sa sb (.cons b0 br) n0 bp htest hP la ca ws
           (hsb.trans e2.3) hR
-          (fun hh k nt b => trCases_nodefault fuel (brkEnv env k) he.1 sw r k nt b (countDefaults_zero r (hcr hh))) FI
+          (fun hh k nt b => trCases_nodefault fuel (brkEnv env k) sw r k nt b (countDefaults_zero r (hcr hh))) FI
         simpa [caseName, hbn, hbp] using this
       · -- folded: the body is a single exit statement, and nothing falls into its block
         have hlx' : loneExit (.cons b0 br) = true := by
@@ -311,7 +313,7 @@ theorem cCases_c : ∀ (cs : Cases) (lb : Nat) (sw : String) (nf : Bool), cgCase
         simp only [toSrcCases]
         have := (sw_fold cx fuel env he endL s.loops s.cases st.waiting hs st.defaultOps d1 l eB ops sa sb (.cons b0 br) n0 bp htest hlone hP la ca ws
           (hsb.trans e2.3) hR
-          (fun hh k nt b => trCases_nodefault fuel (brkEnv env k) he.1 sw r k nt b (countDefaults_zero r (hcr hh)))).weaken
+          (fun hh k nt b => trCases_nodefault fuel (brkEnv env k) sw r k nt b (countDefaults_zero r (hcr hh)))).weaken
           (FI := FI) (fun hf => hFI hnf hf)
         simpa [caseName, hbn, hbp] using this
 
